@@ -1,4 +1,5 @@
-(* Model of the load side of taskiq/serialization.py : exception_to_python (l.332-402) and what it calls
+(* Model of the load side of taskiq/serialization.py : exception_to_python (l.332-402; line numbers are those of the
+   pinned snapshot b702615, as in the anchors of properties.jsonl) and what it calls
    (create_exception_cls / subclass_exception l.66-96, get_pickled_exception l.237-246,
    _UnpickleableExceptionWrapper.restore l.141-142) and of its two callers in taskiq/result/v2.py
    (TaskiqResult._validate_error, a pydantic "before" validator, reached through model_validate and
